@@ -5,6 +5,7 @@ import N2k.Lemmas.TPRecvStep
 import N2k.Lemmas.TPTime
 import N2k.Lemmas.TPLinkMain
 import N2k.Lemmas.TPLinkBam
+import N2k.Lemmas.TPLinkSched
 import N2k.Lemmas.TPPacing
 import N2k.Lemmas.TPSafeRx
 /-!
@@ -515,10 +516,9 @@ A's address as source, B's address as destination, the length and exactly the pa
 pending, `StartSendTPMessage` is free again) and no frame is left in flight. Polls in between with nothing to receive change
 nothing (`poll_idle`).
 
-What is missing for the full statement of DESIGN (hence `_partial`): A and B poll strictly alternately - a schedule with extra
-polls reduces to these by `poll_idle` only as long as the sender's timer is not due at the extra polls, and the reduction (a
-commutation of idle polls over the exchange, carrying the arming time separately from the clock) is not formalised. The BAM
-composition is `C10_end_to_end_bam_partial`. -/
+Restriction (hence `_partial`): A and B poll strictly alternately. `C10_end_to_end_any_order` below lifts it - arbitrary poll
+order, the sender's arming time carried separately from its clock; this alternating form is kept because it states the bound in
+rounds and is the shape of the BAM composition `C10_end_to_end_bam_partial`. -/
 theorem C10_end_to_end_partial (a b : Node) (ia ib : Nat) (da db : Dev) (m : Msg) (ds : List (Nat × Nat))
     (hda : Lead a ia da) (hdb : Lead b ib db) (hqa : Quiet a.s ia) (hqb : Quiet b.s ib)
     (haIdle : (a.tp ia).pend.pgn = 0) (haSent : a.s.drv.sent = []) (haRx : a.rxq = [])
@@ -594,6 +594,87 @@ example : ∃ (a b : Node) (ia ib : Nat) (da db : Dev) (m : Msg) (ds : List (Nat
     m.pgn < 2^24 ∧ n2kToCanId m.prio m.pgn da.source m.dst ≠ 0 := by
   refine ⟨exNodeA, exNodeB, 1, 1, exDevA, exDevB, { exMsg with dst := 31 },
     List.replicate 33 (7, 20), by decide, by decide, by decide, by decide,
+    exLeadA, exLeadB, by decide, by decide, exQuietA, exQuietB, by decide, rfl, rfl,
+    by decide, rfl, rfl, rfl, ⟨rfl, rfl⟩, ⟨rfl, rfl⟩, ⟨{}, by simp [exNodeB, exNode], rfl⟩, by decide, by decide, by decide, by decide, by decide, by decide, by decide,
+    by decide, by decide, by decide⟩
+
+/-- **End to end (RTS/CTS), any poll order.** Same two nodes, same channel, same hypotheses on the nodes as
+`C10_end_to_end_partial`, but the schedule is an ARBITRARY list of polls `(who, delay)`, `who ∈ {A, B}`: in each `step` the
+frames the other node handed to its driver so far arrive, `delay` ms pass at the polled node, and it polls (`ParseMessages`).
+A may be polled any number of times in a row, so may B; the clocks need not agree; B's delays are not restricted at all.
+`timely false 0 50 sch` is the phase-dependent timing condition: every poll of A up to and including the one that reads B's
+answer happens less than 50 ms (after the RTS) resp. less than 100 ms (after a CTS) after A armed its timeout - A's arming time
+is carried separately from its clock, the time of A's idle polls adds up. `effective false sch` counts the polls that find
+frames (B's first poll after A sent, A's first poll after B answered) - both nodes get polled again and again exactly when this
+number grows. Then `SendMsg` succeeds, and for EVERY such schedule with at least `2·packets + 2` (≤ 66) effective polls there
+is a prefix - ending no later than with the `2·packets + 2`-th effective poll - after which B's handler has been called exactly
+once with the PGN, A's address as source, B's address as destination, the length and exactly the payload bytes, A's transfer is
+over (nothing pending), and no frame is left in flight. The lemmas behind it: an extra poll of a node with nothing due is a
+no-op up to its clock (`step_A_idle`, `step_B_idle` from `poll_idle`), and one lemma per effective poll (`step_B_rts`,
+`step_A_cts`, `step_B_window`, `step_B_last`, `step_A_ack`); `round_eq_steps`: the alternating rounds are the schedule
+`[(B, dB), (A, dA)]`.
+
+Not covered: schedules that are NOT timely (A's timeout comes due: A aborts - the single-node statement is `C10_timeouts`, the
+two-node composition of the abort is not formalised), other traffic on the bus during the transfer, a lossy channel. The BAM
+composition (`C10_end_to_end_bam_partial`) is still stated for alternating polls only. -/
+theorem C10_end_to_end_any_order (a b : Node) (ia ib : Nat) (da db : Dev) (m : Msg) (sch : List (Who × Nat))
+    (hda : Lead a ia da) (hdb : Lead b ib db) (hqa : Quiet a.s ia) (hqb : Quiet b.s ib)
+    (haIdle : (a.tp ia).pend.pgn = 0) (haSent : a.s.drv.sent = []) (haRx : a.rxq = [])
+    (hbIdle : (b.tp ib).hasPending = false) (hbSent : b.s.drv.sent = []) (hbRx : b.rxq = []) (hbOut : b.out = [])
+    (haInfo : InfoIdle a ia) (hbInfo : InfoIdle b ib)
+    (hbFree : ∃ sl ∈ b.slots, sl.free = true) (hknown : (checkKnown m.pgn).1 = true ∨ ¬ b.onlyKnown = true)
+    (htp : m.tp = true) (h9 : 9 ≤ m.len) (h223 : m.len ≤ 223) (hdata : m.len ≤ m.data.length)
+    (hdst : m.dst = db.source) (hlow : m.pgn &&& 0xff = 0) (hp0 : m.pgn ≠ 0) (hp24 : m.pgn < 2^24)
+    (hid : n2kToCanId m.prio m.pgn da.source m.dst ≠ 0)
+    (htimely : timely false 0 50 sch) (heff : 2 * tpPacketCount m.len + 2 ≤ effective false sch)
+    (h64 : a.s.now + total sch + 100 < M64) :
+    (sendMsgTP a m (some ia)).2 = true ∧ 2 * tpPacketCount m.len + 2 ≤ 66 ∧
+    ∃ r, r ≤ sch.length ∧ effective false (sch.take r) ≤ 2 * tpPacketCount m.len + 2 ∧
+      (run (sch.take r) ((sendMsgTP a m (some ia)).1, b)).2.out =
+        [{ pgn := m.pgn, src := da.source, dst := db.source, prio := 7, len := m.len, tp := true, data := m.data.take m.len }] ∧
+      ((run (sch.take r) ((sendMsgTP a m (some ia)).1, b)).1.tp ia).pend.pgn = 0 ∧
+      ((run (sch.take r) ((sendMsgTP a m (some ia)).1, b)).1.tp ia).hasPending = false ∧
+      (run (sch.take r) ((sendMsgTP a m (some ia)).1, b)).1.s.drv.sent = [] ∧
+      (run (sch.take r) ((sendMsgTP a m (some ia)).1, b)).2.s.drv.sent = [] ∧
+      (run (sch.take r) ((sendMsgTP a m (some ia)).1, b)).1.rxq = [] ∧
+      (run (sch.take r) ((sendMsgTP a m (some ia)).1, b)).2.rxq = [] := by
+  have hdb251 : db.source ≤ 251 := hdb.src hqb
+  have hstart := sendMsgTP_start a m da hqa hda.dev0 hlow hp0 hid htp h9 (by omega) haIdle
+  rw [haSent, haRx, List.nil_append] at hstart
+  rw [hstart]
+  have hnp32 := tpPacketCount_le m.len h223
+  refine ⟨rfl, by omega, ?_⟩
+  obtain ⟨j, a0, hj, ha0⟩ := start_slot_exists b.slots m.pgn da.source db.source hbFree
+  have hL : LinkHyp a b ia ib da db (pendMsg m da) j (b.slots.map (freeSess da.source db.source)) a0 :=
+    ⟨hda, hdb, hqa, hqb, hbIdle, haInfo, hbInfo, hdst, h9, h223, hdata, hp24, hp0, hknown, rfl, hj, ha0⟩
+  have hb : b = b.upd b.tp b.slots [] [] [] := by
+    have := (upd_self b).symm
+    rw [hbOut, hbSent, hbRx] at this; exact this
+  obtain ⟨r, S'', tA', tB', hr, he, hR⟩ := run_complete hL sch .rts a.s.now a.s.now b.s.now 0 trivial (Nat.le_refl _)
+    (by simp only [Ph.waitA, Ph.tmo, Nat.sub_self]; exact htimely) (by simp only [Ph.waitA, Ph.need]; exact heff) h64
+  refine ⟨r, hr, he, ?_⟩
+  have hpair : (a.upd (txTp ia a (pendMsg m da) 0 a.s.now 50) a.slots a.out [cmFrame da.source m.dst (announceBytes 16 (pendMsg m da))] [], b)
+      = conf a b ia da db (pendMsg m da) j (b.slots.map (freeSess da.source db.source)) a0 .rts a.s.now a.s.now b.s.now 0 :=
+    congrArg (Prod.mk _) hb
+  rw [hpair, hR]
+  refine ⟨rfl, ?_, ?_, rfl, rfl, rfl, rfl⟩
+  · simp [doneTp]
+  · simp [doneTp]
+
+/-- the hypotheses of `C10_end_to_end_any_order` are satisfiable, with a schedule that is NOT alternating: A is polled twice
+before B's first poll, B twice in a row, A three times in a row, ... -/
+example : ∃ (a b : Node) (ia ib : Nat) (da db : Dev) (m : Msg) (sch : List (Who × Nat)),
+    timely false 0 50 sch ∧ 2 * tpPacketCount m.len + 2 ≤ effective false sch ∧ a.s.now + total sch + 100 < M64 ∧
+    sch.take 4 = [(.A, 5), (.A, 9), (.B, 700), (.B, 3)] ∧
+    Lead a ia da ∧ Lead b ib db ∧ 0 < ia ∧ 0 < ib ∧ Quiet a.s ia ∧ Quiet b.s ib ∧
+    (a.tp ia).pend.pgn = 0 ∧ a.s.drv.sent = [] ∧ a.rxq = [] ∧ (b.tp ib).hasPending = false ∧ b.s.drv.sent = [] ∧ b.rxq = [] ∧
+    b.out = [] ∧ InfoIdle a ia ∧ InfoIdle b ib ∧ (∃ sl ∈ b.slots, sl.free = true) ∧ ((checkKnown m.pgn).1 = true ∨ ¬ b.onlyKnown = true) ∧
+    m.tp = true ∧ 9 ≤ m.len ∧ m.len ≤ 223 ∧ m.len ≤ m.data.length ∧ m.dst = db.source ∧ m.pgn &&& 0xff = 0 ∧ m.pgn ≠ 0 ∧
+    m.pgn < 2^24 ∧ n2kToCanId m.prio m.pgn da.source m.dst ≠ 0 := by
+  refine ⟨exNodeA, exNodeB, 1, 1, exDevA, exDevB, { exMsg with dst := 31 },
+    [(.A, 5), (.A, 9), (.B, 700), (.B, 3), (.A, 10), (.A, 40), (.A, 40), (.B, 1), (.A, 15), (.B, 0), (.B, 2000), (.A, 60), (.A, 30),
+     (.B, 8), (.B, 8), (.A, 1), (.B, 4), (.A, 99), (.A, 50), (.B, 6), (.A, 7), (.B, 5), (.A, 3)],
+    by simp [timely], by decide, by decide, rfl,
     exLeadA, exLeadB, by decide, by decide, exQuietA, exQuietB, by decide, rfl, rfl,
     by decide, rfl, rfl, rfl, ⟨rfl, rfl⟩, ⟨rfl, rfl⟩, ⟨{}, by simp [exNodeB, exNode], rfl⟩, by decide, by decide, by decide, by decide, by decide, by decide, by decide,
     by decide, by decide, by decide⟩
